@@ -79,7 +79,15 @@ func (s *shaper) of(t types.Type) *jshape {
 			s.defs[tt.Obj().Name()] = sh
 			return sh
 		}
-		return s.of(tt.Underlying())
+		// named container: may be defined in terms of itself (type Tree []Tree)
+		if s.stack[tt] {
+			return &jshape{K: "ref", Ref: tt.Obj().Name()}
+		}
+		s.stack[tt] = true
+		defer delete(s.stack, tt)
+		sh := s.of(tt.Underlying())
+		s.defs[tt.Obj().Name()] = sh
+		return sh
 	case *types.Basic:
 		switch {
 		case tt.Info()&types.IsBoolean != 0:
